@@ -137,7 +137,7 @@ impl MT205 {
         if let Some(ref info) = self.sender_to_receiver {
             info.information
                 .iter()
-                .any(|line| line.contains("/REJT/") || line.contains("/RJT/"))
+                .any(|line| line.contains("/REJT/"))
         } else {
             false
         }
@@ -148,7 +148,7 @@ impl MT205 {
         if let Some(ref info) = self.sender_to_receiver {
             info.information
                 .iter()
-                .any(|line| line.contains("/RETN/") || line.contains("/RET/"))
+                .any(|line| line.contains("/RETN/"))
         } else {
             false
         }
